@@ -1,1 +1,457 @@
-//! (module to be written)
+//! TeX's macro definitions and calls on token lists: `scan_toks(macro_def=true)` tex.web §473-479 and
+//! `macro_call` §389-400, transliterated. A token is a control sequence (by name) or a character with
+//! its category code; nothing here knows about the repository's types.
+//!
+//! Pascal's linked lists become vectors and the pointers `r`, `s`, `t`, `u`, `v` become indices into
+//! the parameter part, but the control flow (labels `continue`, `found`, `done`, `done1`) is kept.
+
+pub type Cat = u8;
+pub const LEFT_BRACE: Cat = 1;
+pub const RIGHT_BRACE: Cat = 2;
+pub const MAC_PARAM: Cat = 6;
+pub const SPACER: Cat = 10;
+pub const LETTER: Cat = 11;
+pub const OTHER: Cat = 12;
+
+#[derive(Clone, Copy, PartialEq, Eq, Hash, Debug, PartialOrd, Ord)]
+pub enum Tok {
+    /// control sequence, by name (without the escape character)
+    Cs(&'static str),
+    /// character token with its category code
+    Ch(char, Cat),
+}
+
+impl Tok {
+    /// `cur_tok < right_brace_limit` (§289): a left or right brace character token
+    #[inline]
+    pub fn is_brace(self) -> bool {
+        matches!(self, Tok::Ch(_, LEFT_BRACE) | Tok::Ch(_, RIGHT_BRACE))
+    }
+    #[inline]
+    pub fn is_left_brace(self) -> bool {
+        matches!(self, Tok::Ch(_, LEFT_BRACE))
+    }
+    #[inline]
+    pub fn is_right_brace(self) -> bool {
+        matches!(self, Tok::Ch(_, RIGHT_BRACE))
+    }
+    /// §289 `space_token`: the one blank-space token the scanner produces
+    #[inline]
+    pub fn is_space_token(self) -> bool {
+        self == Tok::Ch(' ', SPACER)
+    }
+    pub fn show(self) -> String {
+        match self {
+            Tok::Cs(n) => format!("\\{n}"),
+            Tok::Ch(c, cat) => format!("{c}/{cat}"),
+        }
+    }
+}
+pub fn show(ts: &[Tok]) -> String {
+    ts.iter().map(|t| t.show()).collect::<Vec<_>>().join(" ")
+}
+
+/// Item of the parameter part of a macro's token list (§200: `match`, `end_match`, ordinary tokens).
+#[derive(Clone, Copy, PartialEq, Eq, Debug)]
+pub enum PItem {
+    Tok(Tok),
+    /// `match_token + c`: a parameter; `c` is the character that was used as `#`
+    Match(char),
+    EndMatch,
+}
+impl PItem {
+    /// `(info(r) >= match_token) and (info(r) <= end_match_token)`
+    #[inline]
+    fn is_match_or_end(self) -> bool {
+        matches!(self, PItem::Match(_) | PItem::EndMatch)
+    }
+}
+/// Item of the replacement text: ordinary token or `out_param` n (1..=9).
+#[derive(Clone, Copy, PartialEq, Eq, Debug)]
+pub enum BItem {
+    Tok(Tok),
+    Out(u8),
+}
+
+#[derive(Clone, PartialEq, Eq, Debug)]
+pub struct MacroDef {
+    /// parameter part, always terminated by `EndMatch`
+    pub params: Vec<PItem>,
+    pub body: Vec<BItem>,
+}
+
+#[derive(Clone, Copy, PartialEq, Eq, Debug)]
+pub enum DefErr {
+    /// §475 "Missing { inserted": a right brace ended the parameter part
+    MissingLeftBrace,
+    /// §476 "You already have nine parameters"
+    TooManyParameters,
+    /// §476 "Parameters must be numbered consecutively"
+    NotConsecutive,
+    /// §479 "Illegal parameter number in definition"
+    IllegalParameterNumber,
+    /// the token list ended inside the definition (§338/§339 "File ended while scanning definition")
+    EndOfInput,
+}
+
+/// §473-479: scan the parameter part and the body of a `\def`, starting right after the control
+/// sequence being defined. Returns the definition and the number of tokens consumed (including the
+/// closing right brace). The recoverable error paths of TeX are reported as `Err` (the checks treat
+/// them as outside the domain); they are *not* recovered from.
+pub fn scan_def(input: &[Tok]) -> Result<(MacroDef, usize), DefErr> {
+    let mut pos = 0usize;
+    let mut params: Vec<PItem> = vec![];
+    let mut body: Vec<BItem> = vec![];
+    let mut hash_brace: Option<Tok> = None;
+    let mut t: u8 = 0; // number of parameters so far (§473: t = zero_token + count)
+    let get = |pos: &mut usize| -> Result<Tok, DefErr> {
+        let x = *input.get(*pos).ok_or(DefErr::EndOfInput)?;
+        *pos += 1;
+        Ok(x)
+    };
+    // §474 Scan and build the parameter part of the macro definition
+    'params: {
+        loop {
+            let cur = get(&mut pos)?; // continue: get_token
+            if cur.is_brace() {
+                // goto done1
+                params.push(PItem::EndMatch);
+                if cur.is_right_brace() {
+                    return Err(DefErr::MissingLeftBrace); // §475
+                }
+                break 'params;
+            }
+            if let Tok::Ch(c, MAC_PARAM) = cur {
+                // §476
+                let nxt = get(&mut pos)?;
+                if nxt.is_left_brace() {
+                    hash_brace = Some(nxt);
+                    params.push(PItem::Tok(nxt));
+                    params.push(PItem::EndMatch);
+                    break 'params; // goto done
+                }
+                if t == 9 {
+                    return Err(DefErr::TooManyParameters);
+                }
+                t += 1;
+                if nxt != Tok::Ch((b'0' + t) as char, OTHER) {
+                    return Err(DefErr::NotConsecutive);
+                }
+                params.push(PItem::Match(c)); // cur_tok := s
+                continue;
+            }
+            params.push(PItem::Tok(cur));
+        }
+    }
+    // §477 Scan and build the body of the token list; goto found when finished
+    let mut unbalance = 1i64;
+    loop {
+        let mut cur = BItem::Tok(get(&mut pos)?);
+        if let BItem::Tok(c) = cur {
+            if c.is_brace() {
+                if c.is_left_brace() {
+                    unbalance += 1;
+                } else {
+                    unbalance -= 1;
+                    if unbalance == 0 {
+                        break; // goto found
+                    }
+                }
+            } else if let Tok::Ch(_, MAC_PARAM) = c {
+                // §479 Look for parameter number or ##
+                let nxt = get(&mut pos)?;
+                match nxt {
+                    Tok::Ch(_, MAC_PARAM) => cur = BItem::Tok(nxt), // ## : the second token is stored as it is
+                    Tok::Ch(d, OTHER) if ('1'..='9').contains(&d) && (d as u8 - b'0') <= t => cur = BItem::Out(d as u8 - b'0'),
+                    _ => return Err(DefErr::IllegalParameterNumber),
+                }
+            }
+        }
+        body.push(cur);
+    }
+    // found: if hash_brace<>0 then store_new_token(hash_brace)
+    if let Some(h) = hash_brace {
+        body.push(BItem::Tok(h));
+    }
+    Ok((MacroDef { params, body }, pos))
+}
+
+#[derive(Clone, Copy, PartialEq, Eq, Debug)]
+pub enum CallErr {
+    /// §398 "Use of \x doesn't match its definition"
+    DoesNotMatch,
+    /// §395 "Argument of \x has an extra }"
+    ExtraRightBrace,
+    /// §396 "Paragraph ended before \x was complete"
+    Runaway,
+    /// the token list ended while an argument was being scanned (§338 "File ended while scanning use of")
+    EndOfInput,
+}
+
+#[derive(Clone, PartialEq, Eq, Debug, Default)]
+pub struct Call {
+    /// what `#1`.. were bound to (`pstack`)
+    pub args: Vec<Vec<Tok>>,
+    /// the replacement text with the arguments substituted
+    pub expansion: Vec<Tok>,
+    /// number of tokens of `input` that the call removed
+    pub consumed: usize,
+    /// collision facts computed by the model (for the vacuity counters of the check)
+    pub facts: Facts,
+}
+#[derive(Clone, Copy, PartialEq, Eq, Debug, Default)]
+pub struct Facts {
+    /// §397 ran with s<>null: a delimiter was matched in part and then abandoned
+    pub partial_delimiter_abandoned: bool,
+    /// ... and the re-scan found that a suffix of the abandoned tokens starts the delimiter again
+    pub partial_delimiter_restarted: bool,
+    /// §393: a blank space was skipped before an undelimited parameter
+    pub spaces_skipped: bool,
+    /// §400: a delimited parameter received m >= 2 units of which at least 2 are groups
+    pub several_groups_delimited: bool,
+    /// §400: braces were stripped from a delimited / an undelimited argument
+    pub stripped_delimited: bool,
+    pub stripped_undelimited: bool,
+    /// an argument is the empty list because it was written `{}`
+    pub empty_group_argument: bool,
+    /// a delimited argument is empty because the delimiter followed immediately
+    pub empty_delimited: bool,
+    /// the argument begins with { and ends with } but is not a single group (`{x}{y}`, `{x}y{z}`)
+    pub brace_to_brace_not_single: bool,
+    /// the parameter part ends with the `#{` form
+    pub hash_brace: bool,
+}
+
+/// §389-400 `macro_call` for a macro that is not `\outer`; `long` says whether `\par` may appear in
+/// arguments (§396). `input` is what follows the macro's own token.
+pub fn macro_call(def: &MacroDef, input: &[Tok], long: bool) -> Result<Call, CallErr> {
+    let params = &def.params;
+    let mut facts = Facts::default();
+    let mut pos = 0usize;
+    let mut pstack: Vec<Vec<Tok>> = vec![];
+    let mut r = 0usize; // §391 r := link(ref_count)
+    let par = Tok::Cs("par");
+    if let Some(PItem::Tok(t)) = params.iter().rev().nth(1) {
+        facts.hash_brace = t.is_left_brace();
+    }
+    // §391 if info(r) <> end_match_token then Scan the parameters and make link(r) point to the macro body
+    if params[r] != PItem::EndMatch {
+        loop {
+            // §392 Scan a parameter until its delimiter string has been found; or, if s=null, simply scan the delimiter string
+            let s: Option<usize>;
+            let mut p: Vec<Tok> = vec![];
+            let mut m = 0usize;
+            let mut groups = 0usize;
+            if let PItem::Match(_) = params[r] {
+                r += 1;
+                s = Some(r);
+            } else {
+                s = None;
+            }
+            'cont: loop {
+                // continue: get_token
+                let cur = *input.get(pos).ok_or(CallErr::EndOfInput)?;
+                pos += 1;
+                if PItem::Tok(cur) == params[r] {
+                    // §394 Advance r; goto found if the parameter delimiter has been fully matched, otherwise goto continue
+                    r += 1;
+                    if params[r].is_match_or_end() {
+                        break 'cont; // goto found
+                    }
+                    continue 'cont;
+                }
+                // §397 Contribute the recently matched tokens to the current parameter, and goto continue if a partial match is still in effect; but abort if s=null
+                if s != Some(r) {
+                    let s0 = match s {
+                        None => return Err(CallErr::DoesNotMatch), // §398
+                        Some(s0) => s0,
+                    };
+                    facts.partial_delimiter_abandoned = true;
+                    let mut t = s0;
+                    loop {
+                        // repeat
+                        if let PItem::Tok(x) = params[t] {
+                            p.push(x);
+                        }
+                        m += 1;
+                        let mut u = t + 1;
+                        let mut v = s0;
+                        loop {
+                            if u == r {
+                                if PItem::Tok(cur) != params[v] {
+                                    break; // goto done
+                                }
+                                r = v + 1;
+                                facts.partial_delimiter_restarted = true;
+                                continue 'cont;
+                            }
+                            if params[u] != params[v] {
+                                break; // goto done
+                            }
+                            u += 1;
+                            v += 1;
+                        }
+                        // done:
+                        t += 1;
+                        if t == r {
+                            break;
+                        }
+                    }
+                    r = s0; // at this point, no tokens are recently matched
+                }
+                // §392 (cont.)
+                if cur == par && !long {
+                    return Err(CallErr::Runaway); // §396
+                }
+                if cur.is_brace() {
+                    if cur.is_left_brace() {
+                        // §399 Contribute an entire group to the current parameter
+                        let mut unbalance = 1i64;
+                        let mut c = cur;
+                        loop {
+                            p.push(c); // fast_store_new_token(cur_tok)
+                            c = *input.get(pos).ok_or(CallErr::EndOfInput)?; // get_token
+                            pos += 1;
+                            if c == par && !long {
+                                return Err(CallErr::Runaway);
+                            }
+                            if c.is_brace() {
+                                if c.is_left_brace() {
+                                    unbalance += 1;
+                                } else {
+                                    unbalance -= 1;
+                                    if unbalance == 0 {
+                                        break; // goto done1
+                                    }
+                                }
+                            }
+                        }
+                        // done1: rbrace_ptr := p; store_new_token(cur_tok)
+                        p.push(c);
+                        groups += 1;
+                    } else {
+                        // §395 Report an extra right brace and goto continue
+                        return Err(CallErr::ExtraRightBrace);
+                    }
+                } else {
+                    // §393 Store the current token, but goto continue if it is a blank space that would become an undelimited parameter
+                    if cur.is_space_token() && params[r].is_match_or_end() {
+                        facts.spaces_skipped = true;
+                        continue 'cont;
+                    }
+                    p.push(cur);
+                }
+                m += 1;
+                // if info(r)>end_match_token then goto continue; if info(r)<match_token then goto continue
+                if !params[r].is_match_or_end() {
+                    continue 'cont;
+                }
+                break 'cont;
+            }
+            // found: if s<>null then §400 Tidy up the parameter just scanned, and tuck it away
+            if let Some(s0) = s {
+                let delimited = !params[s0].is_match_or_end();
+                if m == 1 && p.last().map(|t| t.is_brace()).unwrap_or(false) {
+                    p.pop();
+                    p.remove(0);
+                    if p.is_empty() {
+                        facts.empty_group_argument = true;
+                    }
+                    if delimited {
+                        facts.stripped_delimited = true;
+                    } else {
+                        facts.stripped_undelimited = true;
+                    }
+                } else if delimited {
+                    if p.is_empty() {
+                        facts.empty_delimited = true;
+                    }
+                    if groups >= 2 {
+                        facts.several_groups_delimited = true;
+                    }
+                    if m >= 2 && p.first().map(|t| t.is_left_brace()).unwrap_or(false) && p.last().map(|t| t.is_right_brace()).unwrap_or(false) {
+                        facts.brace_to_brace_not_single = true;
+                    }
+                }
+                pstack.push(p);
+            }
+            // until info(r)=end_match_token
+            if params[r] == PItem::EndMatch {
+                break;
+            }
+        }
+    }
+    // §390 Feed the macro body and its parameters to the scanner
+    let mut expansion = vec![];
+    for b in &def.body {
+        match b {
+            BItem::Tok(t) => expansion.push(*t),
+            BItem::Out(n) => expansion.extend_from_slice(&pstack[*n as usize - 1]),
+        }
+    }
+    Ok(Call { args: pstack, expansion, consumed: pos, facts })
+}
+
+#[cfg(test)]
+mod tests {
+    use super::*;
+    fn lex(s: &str) -> Vec<Tok> {
+        // tiny test lexer: \name (letters), {, }, #, space, letters, others
+        let cs: &[&'static str] = &["x", "par", "relax", "b"];
+        let b: Vec<char> = s.chars().collect();
+        let mut i = 0;
+        let mut out = vec![];
+        while i < b.len() {
+            let c = b[i];
+            i += 1;
+            match c {
+                '\\' => {
+                    let st = i;
+                    while i < b.len() && b[i].is_ascii_alphabetic() {
+                        i += 1;
+                    }
+                    let n: String = b[st..i].iter().collect();
+                    out.push(Tok::Cs(cs.iter().find(|x| **x == n).expect("known cs")));
+                    while i < b.len() && b[i] == ' ' {
+                        i += 1;
+                    }
+                }
+                '{' => out.push(Tok::Ch(c, LEFT_BRACE)),
+                '}' => out.push(Tok::Ch(c, RIGHT_BRACE)),
+                '#' => out.push(Tok::Ch(c, MAC_PARAM)),
+                ' ' => out.push(Tok::Ch(c, SPACER)),
+                c if c.is_ascii_alphabetic() => out.push(Tok::Ch(c, LETTER)),
+                c => out.push(Tok::Ch(c, OTHER)),
+            }
+        }
+        out
+    }
+    fn run(def: &str, call: &str) -> Result<String, CallErr> {
+        let (d, n) = scan_def(&lex(def)).unwrap();
+        assert_eq!(n, lex(def).len());
+        let input = lex(call);
+        let c = macro_call(&d, &input, false)?;
+        let mut out = c.expansion.clone();
+        out.extend_from_slice(&input[c.consumed..]);
+        Ok(out.iter().map(|t| match t { Tok::Cs(n) => format!("\\{n} "), Tok::Ch(c, _) => c.to_string() }).collect())
+    }
+    #[test]
+    fn texbook() {
+        // The TeXbook, chapter 20: \def\cs AB#1#2C$#3\$ {#3{ab#1}#1 c##\x #2}
+        assert_eq!(run("#1.{[#1]}", "{x}{y}.z").unwrap(), "[{x}{y}]z");
+        assert_eq!(run("#1.{[#1]}", "{x}.z").unwrap(), "[x]z");
+        assert_eq!(run("#1.{[#1]}", " {x}.z").unwrap(), "[ {x}]z");
+        assert_eq!(run("#1#2{[#1|#2]}", "  a {bc}d").unwrap(), "[a|bc]d");
+        assert_eq!(run("#1aa{[#1]}", "aaa").unwrap(), "[]a");
+        assert_eq!(run("#1aab{[#1]}", "aaab.").unwrap(), "[a].");
+        assert_eq!(run("#1ab{[#1]}", "aab.").unwrap(), "[a].");
+        assert_eq!(run("#1#{[#1]}", "ab{c}").unwrap(), "[ab]{c}");
+        assert_eq!(run("a#{x}", "a{c}").unwrap(), "x{c}");
+        assert_eq!(run("#1{##1#1}", "a").unwrap(), "#1a");
+        assert_eq!(run("a#1{x}", "ba"), Err(CallErr::DoesNotMatch));
+        assert_eq!(run("#1.{x}", "}."), Err(CallErr::ExtraRightBrace));
+        assert_eq!(run("#1{x}", "}"), Err(CallErr::ExtraRightBrace));
+        assert_eq!(run("#1.{x}", "a\\par."), Err(CallErr::Runaway));
+        assert_eq!(run("#1.{x}", "{a"), Err(CallErr::EndOfInput));
+    }
+}
